@@ -16,7 +16,7 @@ PROPS = {
     "C07": {"profiles": ["struct-flat", "tree", "enum", "shape-change"], "n_quick": 5400},
     "C08": {"profiles": ["trait-params", "tree", "trait-repeat"], "n_quick": 5400},
     "C09": {"profiles": ["enum-prim"], "n_quick": 3600},
-    "C10": {"profiles": ["expr", "shape-change"], "n_quick": 4500},
+    "C10": {"profiles": ["expr", "shape-change", "tree"], "n_quick": 4500},
     "C11": {"profiles": ["generics"], "n_quick": 4500},
     "C12": {"profiles": ["traits", "member-instrs", "enum"], "n_quick": 4500},
     "C13": {"profiles": ["struct-flat", "enum", "tree", "trait-params", "unknowns"], "n_quick": 3600, "backends": ["s1", "s2"]},
